@@ -81,6 +81,9 @@ def same_alias_cases(n, seed):
 def classify(tags, dialect, missing, unexpected, exp):
     """narrow shapes of listed findings; anything else is a violation"""
     t = set(tags)
+    # KF-16e: the legacy analyzer takes the first part of schema.table.column as the qualifier
+    if dialect == "non-validating" and "col.qualified_by_full_name" in t:
+        return "KF-16e"
     # KF-05: a set operation whose first branch has a source-less (literal) item mis-attributes later branches
     if "setop.first_branch_literal" in t:
         return "KF-05"
